@@ -87,8 +87,9 @@ def _mk(M, op, l_none, r_none, thr_ty=FLOAT):
             return [('table-size-domain', z3.And(ln(rec_field(lt, 'rows')) <= S.MAXTOK,
                                                  ln(rec_field(rt, 'rows')) <= S.MAXTOK)),
                     ('token-count-domain', FA([rs, s_], L_len(LV, S.toks(rs, s_)) <= S.MAXTOK, [S.toks(rs, s_)])),
-                    # extra precondition recorded as known finding D10 (not a documented precondition):
-                    ('output-names-do-not-collide-with-_id', no_id_collision(c, self.outs(c)))]
+                    # extra preconditions recorded as known findings D10 and D8 (not documented preconditions):
+                    ('output-names-do-not-collide-with-_id', no_id_collision(c, self.outs(c))),
+                    ('threshold-not-extreme', z3.Implies(R_(c['threshold']) > 0, R_(c['threshold']) >= rv(Fraction(1, 2 ** 400))))]
 
         def raises(self, c):
             lo, ro = self.outs(c)
